@@ -54,6 +54,7 @@ OVERRIDES = {
     "Request::uri": _request_uri,
     "sanitize_for_log": _opaque_str,
     "Transport::http_resolve": _transport,
+    "Transport::http_resolve_async": _transport,
 }
 
 
@@ -143,7 +144,7 @@ def make_queries(tier):
         E.cover("apex host", pre.e.n == bv(0))
         E.cover("look-alike host", ugt(pre.e.n, bv(2)))
 
-    def q_enforcement(E):
+    def q_enforcement(E, entry="<RestrictedResolver as SyncHttpResolver>::http_resolve"):
         """RestrictedResolver::http_resolve forwards a request to the transport only if some pattern matches"""
         p1, p2 = pattern(E, "pattern1"), pattern(E, "pattern2")
         uri, host, port, has_port, scheme = sym_uri(E, C)
@@ -154,7 +155,7 @@ def make_queries(tier):
         resolver = VStruct("RestrictedResolver", {"inner": VStruct("Transport", {}), "allowed_hosts": opt(configured.e, pats)})
         req = VStruct("Request", {"uri": uri})
         if E.mode == "symbolic":
-            res = E.call("<RestrictedResolver as SyncHttpResolver>::http_resolve", resolver, req)
+            res = E.call(entry, resolver, req)
             reached = z3.Or([g for g, tag, _ in E.I.events if tag == "transport"] or [z3.BoolVal(False)])
             is_err = res.tag == TAG("Result", "Err")
         else:
@@ -176,7 +177,11 @@ def make_queries(tier):
             E.cover("request allowed by the second pattern only", z3.And(configured.e, reached, z3.Not(ok1)))
             E.cover("no allow-list: everything forwarded", z3.And(z3.Not(configured.e), reached))
 
-    return [q_pattern_match_sound, q_wildcard_never_matches_apex_or_lookalike, q_enforcement]
+    def q_enforcement_async(E):
+        """the async twin of the enforcement wrapper (executed as straight-line code; replayed through the sync entry point)"""
+        return q_enforcement(E, "<RestrictedResolver as AsyncHttpResolver>::http_resolve_async")
+
+    return [q_pattern_match_sound, q_wildcard_never_matches_apex_or_lookalike, q_enforcement, q_enforcement_async]
 
 
 # ---- native mapping (replay + differential validation) -------------------------------------------
